@@ -120,6 +120,23 @@ pub fn mirror_scenario(prop: &str, seed: u64, index: u64) -> Option<Scenario> {
         }
         _ => {}
     }
+    // the resolution setters are part of the wrapped API: also give them out-of-range arguments
+    // (the core clamps fractions above 1 to 1 and ignores non-positive ones)
+    if rng.chance(0.2) {
+        let odd = *rng.pick(&[1.5, 2.5, 1.0, 0.0, -1.0]);
+        let set = |sp: &mut SpaceSpec| match sp {
+            SpaceSpec::RV { frac, .. } | SpaceSpec::SO2 { frac, .. } | SpaceSpec::SO3 { frac, .. } => *frac = odd,
+            _ => {}
+        };
+        match &mut scn.space {
+            SpaceSpec::Compound { parts, .. } => {
+                let i = rng.below(parts.len() as u64) as usize;
+                set(&mut parts[i]);
+            }
+            other => set(other),
+        }
+        scn.params.insert("odd_fraction".into(), 1.0);
+    }
     scn.clock = ClockSpec { tick_ns: 1_000_000, cost_valid: vec![], cost_sample: vec![], cost_goal: vec![] };
     let spec = scn.space.clone();
     for p in &mut scn.problems {
